@@ -192,6 +192,31 @@ pub fn run_pairing(a: &Args, out: &mut Out) {
             }
         }
     }
+    if focus == "vector" {
+        // G1 points with a tiny affine x (and x = q - i): coordinates with many zero bytes, in a normalised and a rescaled form
+        let mut done = 0;
+        for xi in 0u8..60 {
+            if done >= (if a.tier == "thorough" { 40 } else { 8 }) { break; }
+            if (xi as u64 + a.seed) % 3 != 0 { continue; }
+            let mut v = vec![2u8 + (xi & 1)];
+            let mut x = [0u8; 32];
+            x[31] = xi;
+            let xs = if xi % 4 == 3 { (-Fq::from_slice(&x).unwrap()).to_slice() } else { x };
+            v.extend_from_slice(&xs);
+            if let Ok(p) = G1::from_compressed(&v) {
+                done += 1;
+                let p = if xi % 2 == 0 { p } else { g1_rep(&mut rng, p, "S") };
+                let kb = pick_scalar(&mut rng, &pool);
+                if kb.is_zero() { continue; }
+                let tq = pick_tag(&mut rng);
+                let q = g2_rep(&mut rng, G2::one() * kb, tq);
+                let v = ENTRY[done % 3];
+                out.call("pair", json!({"v": v, "p": p.jac(), "q": q.jac(), "ka": b(&[0u8; 32]), "kb": b(&kb.to_slice()), "full": true, "nodl": true}), || {
+                    outs! {"out" => b(&pair_by(v, p, q).to_slice())}
+                });
+            }
+        }
+    }
     let (eig1, eig2) = (endo_eigen::<G1>(), endo_eigen::<G2>());
     let mut k = 0u64;
     while !out.full() {
